@@ -169,6 +169,8 @@ func (vm *Manager) UpdateAll(cfgs []v1.VisitorConfigurer) {
 	addNames := make([]string, 0)
 	for _, cfg := range cfgs {
 		name := cfg.GetBaseConfig().Name
+		// A duplicated name resolves to the same definition the removal pass compared against.
+		cfg = cfgsMap[name]
 		if _, ok := vm.cfgs[name]; !ok {
 			vm.cfgs[name] = cfg
 			addNames = append(addNames, name)
